@@ -90,6 +90,10 @@ func insertFences(repo string) error {
 	if err := insertFuncStartFence(filepath.Join(repo, "pkg/http2/server.go"), "writeFrameAsync", "verifYieldWrite"); err != nil {
 		missing = append(missing, "writeFrameAsync: "+err.Error())
 	}
+	// serve fence: the serve loop parks before its select while an asynchronous write is in flight
+	if err := insertServeFence(filepath.Join(repo, "pkg/http2/server.go")); err != nil {
+		missing = append(missing, "serve loop: "+err.Error())
+	}
 	// capture fences: a yield before every "<x>.Mu.Lock()" statement in the forked
 	// server (the locks around the captured fingerprint data), so that the controller
 	// can run a handler between two critical sections of one frame's capture
@@ -795,4 +799,64 @@ func insertCertwatcherHooks(dir string) error {
 		return err
 	}
 	return os.WriteFile(filepath.Join(dir, "zz_verif_hooked.go"), []byte("//go:build verif\n\npackage certwatcher\n\nfunc init() { VerifHooksInserted = true }\n"), 0o644)
+}
+
+// insertServeFence puts `verifYieldServe(sc)` in front of the select statement of the
+// main loop of (*serverConn).serve (the one that receives from sc.wantWriteFrameCh).
+func insertServeFence(path string) error {
+	fset := token.NewFileSet()
+	f, err := parser.ParseFile(fset, path, nil, parser.ParseComments)
+	if err != nil {
+		return err
+	}
+	n := 0
+	ast.Inspect(f, func(nd ast.Node) bool {
+		fd, ok := nd.(*ast.FuncDecl)
+		if !ok || fd.Name.Name != "serve" || fd.Recv == nil || fd.Body == nil {
+			return true
+		}
+		for _, st := range fd.Body.List {
+			fs, ok := st.(*ast.ForStmt)
+			if !ok {
+				continue
+			}
+			var out []ast.Stmt
+			for _, in := range fs.Body.List {
+				if sel, ok := in.(*ast.SelectStmt); ok && selectReceivesFrom(sel, "wantWriteFrameCh") {
+					out = append(out, &ast.ExprStmt{X: &ast.CallExpr{Fun: ast.NewIdent("verifYieldServe"), Args: []ast.Expr{ast.NewIdent("sc")}}})
+					n++
+				}
+				out = append(out, in)
+			}
+			fs.Body.List = out
+		}
+		return false
+	})
+	if n != 1 {
+		return fmt.Errorf("%d select statements receiving from wantWriteFrameCh in serve, want 1", n)
+	}
+	var sb strings.Builder
+	if err := format.Node(&sb, fset, f); err != nil {
+		return err
+	}
+	return os.WriteFile(path, []byte(sb.String()), 0o644)
+}
+
+func selectReceivesFrom(sel *ast.SelectStmt, ch string) bool {
+	found := false
+	for _, c := range sel.Body.List {
+		cc, ok := c.(*ast.CommClause)
+		if !ok || cc.Comm == nil {
+			continue
+		}
+		ast.Inspect(cc.Comm, func(n ast.Node) bool {
+			if u, ok := n.(*ast.UnaryExpr); ok && u.Op == token.ARROW {
+				if se, ok := u.X.(*ast.SelectorExpr); ok && se.Sel.Name == ch {
+					found = true
+				}
+			}
+			return true
+		})
+	}
+	return found
 }
